@@ -13,7 +13,7 @@
     that is reachable under two path strings (a linked directory that is followed, or a link
     to a file) is recorded under both, each time with its own content hash. *)
 From InToto.Model Require Import Base Fs Resolve.
-From InToto.Proofs Require Import FsProofs ResolveSpec ResolveProofs ResolveFold ResolveMain ResolveRecord.
+From InToto.Proofs Require Import FsProofs ResolveSpec ResolveProofs ResolveFold ResolveMain ResolveRecord NormProofs.
 
 (** nothing missed, nothing invented, value exact.  [clean_run]: when there is NO prefix list,
     reachable paths contain no backslash and do not begin with "file:" (see C10_unclean_refuted
@@ -149,6 +149,15 @@ Print Assumptions C10_normpath_idempotent.
 Theorem C10_normpath_child : forall b n, base_ok b -> gname n -> normpath (join b n) = child (normpath b) n.
 Proof. exact normpath_child. Qed.
 Print Assumptions C10_normpath_child.
+
+(** line endings: securesystemslib normalises chunk by chunk (4096 bytes, a chunk ending in CR is
+    extended); that equals normalising the whole content, for every chunk size >= 1 — so the value
+    recorded ([hash_content], used in C10_exact) is the spec's [value_of] *)
+Theorem C10_line_endings :
+  (forall fuel n data, (1 <= n)%nat -> (length data < fuel)%nat -> norm_chunked fuel n data = norm_le data) /\
+  (forall (H : list N -> str) n c, hash_content H n c = value_of H n c).
+Proof. split; [exact norm_chunked_whole | exact hash_content_value]. Qed.
+Print Assumptions C10_line_endings.
 
 (** answers do not depend on the fuel once it suffices *)
 Theorem C10_fuel_monotone : forall root f loc cs r,
